@@ -21,8 +21,8 @@ P = {
          'Iterators are indices in the model; real iterator equality/dereference is observed by the harness. ' + TB),
  'C12': ('proof', 'Lean theorem: for every strict weak order, sorted content, hint in [begin,end] and value, the nine-exit insert_hint model equals plain insertion (list and designated index); the same for insert(hint, const T&), insert(hint, T&&) and emplace_hint as REGENERATED from flatset.hpp on every run (translator/flatset2lean.py, equality with the model proved in Bridge/FlatSetBridge.lean; Props/C12b.lean), incl. that no iterator outside [begin,end] is dereferenced + complete enumeration of subsets x hints x values on the real FlatSet against plain insert, std::set and the model (incl. comparator-call counts)',
          'The generated functions are read as generic in the element type and comparator although FlatSet<int, std::less<int>> is what is instantiated for the AST; std::lower_bound inside the search-before-hint exit is the hand-written libstdc++ loop. ' + TB),
- 'C18': ('proof', 'Lean theorem over the generated SafeNextCapacity: n <= 2*2^k pushes perform <= 2k+2 allocator requests from any state; reserve allocates once; shrink_to_fit target + allocator-call counting on real runs',
-         'O(n) relocations is checked on runs (3*size+8), not proved. ' + TB),
+ 'C18': ('proof', 'Lean theorem over the generated SafeNextCapacity: n <= 2*2^k pushes perform <= 2k+2 allocator requests from any state; reserve allocates once; shrink_to_fit target; O(n) relocations (Props/C18b.lean): n pushes from any state relocate at most 3*(size+n) elements in total (sharp, attained), none while the capacity suffices, none after a sufficient reserve + allocator-call and relocation counting on real runs',
+         'Push-only runs and reserve-then-push runs; bulk appends and mixed histories are measured on runs only. 64-bit size_type: capacity < 2^62. ' + TB),
  'C19': ('proof', 'Lean theorems: libstdc++ lower_bound/upper_bound halving loops use <= k comparator calls below 2^k elements and compute the specification lower bound; find/insert/erase <= k+1; correct hint <= 4 calls; inline SmallSet scan <= 2N; the same bounds for the lookups, key-based mutators and hinted insertions REGENERATED from flatset.hpp on every run (Props/C19b.lean via Bridge/FlatSetBridge.lean) + real comparator-call counts for all n <= 64 and every rank, diffed exactly against the model',
          'std::lower_bound is modelled (libstdc++ 12 loop), validated by exact count comparison; std::set-backed large SmallSet counts are not modelled. ' + TB),
 }
